@@ -775,20 +775,22 @@ def rule_polarity(run, F, cfg):
            f"$third-party / $~first-party clear FIRST_PARTY; $first-party / $~third-party clear THIRD_PARTY "
            f"(extracted {dict((k, sorted(v)) for k, v in reach.items())})", site=c.loc(0), config=cfg)
     # (4) domain option: `~d` is an exclusion, the unions are OR-folds, lists are sorted
-    dom = [g for g in F.closures_of(f.name) if g.calls(r"strip_prefix$")]
+    # wherever the entry is built (a closure of the iterator chain or a plain loop in the function itself): the pair
+    # (enabled, domain) is (false, ..) exactly under strip_prefix('~') == Some
+    dom = [g for g in [f] + F.closures_of(f.name) if g.calls(r"strip_prefix$")]
     okd = False
     if len(dom) == 1:
         g = dom[0]
         pr = {}
-        for pth in enumerate_paths(g):
-            if pth.end != "return":
-                continue
-            stripped = [v for e, v in pth.conds if "strip_prefix(" in e and e.startswith("discr(")]
-            val = path_value(g, pth, 0) or ""
-            m = re.match(r"^\((true|false), ", val)
-            if stripped and m:
-                pr[1 if stripped[0] == 1 else 0] = m.group(1)
-        okd = pr == {1: "false", 0: "true"}
+        for b, i, st in g.statements():
+            if st["k"] == "assign" and st["rv"]["k"] == "agg" and st["rv"].get("agg") == "tuple" and len(st["rv"]["ops"]) == 2:
+                first = g.expr_operand(st["rv"]["ops"][0])
+                if first not in ("true", "false"):
+                    continue
+                stripped = [v for e, v in dominating_conditions(g, b).items() if e.startswith("discr(") and "strip_prefix(" in e]
+                if stripped and stripped[0] in (0, 1, ("not", (1,)), ("not", (0,))):
+                    pr.setdefault(1 if stripped[0] in (1, ("not", (0,))) else 0, set()).add(first)
+        okd = pr == {1: {"false"}, 0: {"true"}}
     run.ob("C03.1.option-chain", "domain-tilde-is-exclusion", okd,
            "in `domain=`, an entry with the `~` prefix is parsed as (false, name) and any other entry as (true, name)",
            config=cfg)
